@@ -723,11 +723,14 @@ def r_flat_list(repo, rep, R='R7.3'):
         v = st.env.get(p0)
         if pol and pol[0]:
             seen = True
-            if v == wrapped:
+            # the parameter itself is rebound, or a local of another name takes the batch (`sentences = [nbest_trees]`)
+            if v == wrapped or any(val == wrapped for val in st.env.values() if isinstance(val, tuple)):
                 ok = True
-        if v is not None and v[0] in ('listcomp',) and any(x[0] == 'call' and x[1] == N('isinstance') and len(x[2]) == 2 and x[2][1] == N('ScoredTree')
+        for v in [x_ for x_ in st.env.values() if isinstance(x_, tuple) and x_ and x_[0] == 'listcomp']:
+          if v is not None and v[0] in ('listcomp',) and any(x[0] == 'call' and x[1] == N('isinstance') and len(x[2]) == 2 and x[2][1] == N('ScoredTree')
                                                           and x[2][0][0] == 'elem' for x in subterms(v)):
             per_tree.append(show(v)[:80])
+            break
     w = '%s:%s to_string' % (mod.rel, fn.lineno)
     rep.check(seen and ok and not per_tree, R, w, 'to_string:flat-nbest-list',
               'a flat list of scored trees is taken as the n-best list of one sentence',
